@@ -328,6 +328,11 @@ func (w *hw) checkFees(t tables, q map[string][]qItem) {
 				w.rec.Violation("fees/assignee-without-multiplier", fmt.Sprintf("message %d got an elected estimate but its assignee has no relayer fee for %s", it.ID, ch), w.witness(wit))
 				continue
 			}
+			if it.Fees == nil {
+				// whatever the inputs were: an elected estimate on a fee-paying message without fees attached
+				w.rec.Violation("fees/missing-after-election", fmt.Sprintf("message %d has elected gas %d but no fees", it.ID, it.Gas), w.witness(wit))
+				continue
+			}
 			want, discr, ok := refFees(mult, t.CF, t.SF, it.Gas)
 			if !ok {
 				w.rec.Count("fee_reference_unavailable", 1)
@@ -341,10 +346,6 @@ func (w *hw) checkFees(t tables, q map[string][]qItem) {
 			}
 			if discr {
 				w.rec.Count("fee_ceil_discriminating", 1)
-			}
-			if it.Fees == nil {
-				w.rec.Violation("fees/missing-after-election", fmt.Sprintf("message %d has elected gas %d but no fees", it.ID, it.Gas), w.witness(wit))
-				continue
 			}
 			names := []string{"relayer", "community", "security"}
 			for i := 0; i < 3; i++ {
@@ -456,6 +457,18 @@ func (w *hw) checkRelay(ctx sdk.Context, q map[string][]qItem) {
 				}
 				if any && allUnest && estOK {
 					w.rec.Count("discr_sender_blockers_all_unestimated", 1)
+				}
+			}
+			// third sentence, at the moment of the offer: a fee-paying message that is offered on the
+			// strength of an elected estimate has fees attached (their values are decided in checkFees
+			// against the tables of the election)
+			if verdict[i] == "" && it.FeePayer && it.ReqGas && it.Gas > 0 {
+				w.rec.Eval(1)
+				if it.Fees == nil {
+					w.rec.Violation("relay/offered-without-fees", fmt.Sprintf("message %d on %s (elected gas %d) is offered to %s for relay without fees attached", it.ID, ch, it.Gas, it.Assignee),
+						w.witness(map[string]any{"item": it, "chain": ch}))
+				} else {
+					w.rec.Count("relay_offered_fee_payer_with_fees", 1)
 				}
 			}
 			if verdict[i] == "" && it.Kind == "slc" && len(it.Sender) > 0 {
